@@ -1,0 +1,88 @@
+//go:build verif
+
+package rapid
+
+// Instrumentation for the /verif runtime monitors. This file only reads
+// internal state or calls existing internals; it is compiled only with
+// -tags verif.
+
+type VerifGroup struct {
+	Begin, End int
+	Label      string
+	Standalone bool
+	Discard    bool
+}
+
+type VerifStream struct {
+	Kind      string // "random" | "buffer" | "other"
+	Persist   bool
+	Remaining []uint64 // buffer streams: words not consumed yet
+	Data      []uint64 // recorded words (persist only)
+	DataLen   int      // number of words consumed (non-persist)
+	Groups    []VerifGroup
+}
+
+type VerifOutcome struct {
+	Kind      string // "ok" | "invalid" | "failed" | "panic"
+	Msg       string
+	Traceback string
+}
+
+func verifRec(rec *recordedBits, vs *VerifStream) {
+	vs.Persist = rec.persist
+	vs.Data = append([]uint64(nil), rec.data...)
+	vs.DataLen = rec.dataLen
+	for _, g := range rec.groups {
+		vs.Groups = append(vs.Groups, VerifGroup{g.begin, g.end, g.label, g.standalone, g.discard})
+	}
+}
+
+func VerifStreamOf(t *T) VerifStream {
+	var vs VerifStream
+	switch s := t.s.(type) {
+	case *randomBitStream:
+		vs.Kind = "random"
+		verifRec(&s.recordedBits, &vs)
+	case *bufBitStream:
+		vs.Kind = "buffer"
+		vs.Remaining = append([]uint64(nil), s.buf...)
+		verifRec(&s.recordedBits, &vs)
+	default:
+		vs.Kind = "other"
+	}
+	return vs
+}
+
+func verifOutcome(err *testError) VerifOutcome {
+	switch {
+	case err == nil:
+		return VerifOutcome{Kind: "ok"}
+	case err.isInvalidData():
+		return VerifOutcome{Kind: "invalid", Msg: err.Error(), Traceback: err.traceback}
+	case err.isStopTest():
+		return VerifOutcome{Kind: "failed", Msg: err.Error(), Traceback: err.traceback}
+	default:
+		return VerifOutcome{Kind: "panic", Msg: err.Error(), Traceback: err.traceback}
+	}
+}
+
+func VerifRecord(seed uint64, prop func(*T)) (VerifStream, VerifOutcome) {
+	s := newRandomBitStream(seed, true)
+	t := newT(nil, s, false, nil)
+	err := checkOnce(t, prop)
+	return VerifStreamOf(t), verifOutcome(err)
+}
+
+func VerifReplay(words []uint64, prop func(*T)) VerifOutcome {
+	s := newBufBitStream(append([]uint64(nil), words...), false)
+	return verifOutcome(checkOnce(newT(nil, s, false, nil), prop))
+}
+
+func VerifPrune(vs VerifStream) []uint64 {
+	rec := recordedBits{persist: true, data: append([]uint64(nil), vs.Data...)}
+	for _, g := range vs.Groups {
+		rec.groups = append(rec.groups, groupInfo{g.Begin, g.End, g.Label, g.Standalone, g.Discard})
+	}
+	rec.prune()
+	return rec.data
+}
